@@ -416,20 +416,42 @@ fn revert_step(shape: &[usize], npend: usize, ntop: usize, nbase: Option<usize>,
     let mut buf_b = [mk_update(ub[0]), mk_update(ub[1])];
     let len_a = if nc >= 1 { shape[0] } else { 0 };
     let len_b = if nc >= 2 { shape[1] } else { 0 };
+    // Commands that the revert KEEPS (index < idx) are read (replayed) and never dropped: their
+    // updates sit in the stack buffers. Commands that the revert DROPS are only destroyed, which
+    // frees their buffer: those get an ordinary heap vector.
+    let heap = |u: &[Upd; 2], n: usize| -> Vec<Update> {
+        if n == 0 {
+            Vec::new()
+        } else if n == 1 {
+            alloc::vec![mk_update(u[0])]
+        } else {
+            alloc::vec![mk_update(u[0]), mk_update(u[1])]
+        }
+    };
+    let upd_a: Vec<Update> = if idx > 0 {
+        unsafe { Vec::from_raw_parts(buf_a.as_mut_ptr(), len_a, 2) }
+    } else {
+        heap(&ua, len_a)
+    };
+    let upd_b: Vec<Update> = if idx > 1 {
+        unsafe { Vec::from_raw_parts(buf_b.as_mut_ptr(), len_b, 2) }
+    } else {
+        heap(&ub, len_b)
+    };
     let mut cbuf = [
         CommandData {
             id: cmd_id(ids[0]),
             priority: Priority::Basic(0),
             policy: None,
             data: Box::new([]),
-            updates: unsafe { Vec::from_raw_parts(buf_a.as_mut_ptr(), len_a, 2) },
+            updates: upd_a,
         },
         CommandData {
             id: cmd_id(ids[1]),
             priority: Priority::Basic(0),
             policy: None,
             data: Box::new([]),
-            updates: unsafe { Vec::from_raw_parts(buf_b.as_mut_ptr(), len_b, 2) },
+            updates: upd_b,
         },
     ];
     let mut pbuf = [mk_update(any_upd())];
